@@ -1,6 +1,7 @@
 """Shared driver for the properties decided with Exec.tla on the zoo (C01, C19, C16)."""
 import json
 import os
+import re
 
 from lib import vlib
 from lib.vlib import Inconclusive
@@ -21,6 +22,74 @@ def judge(zoo, recs, out):
     return r
 
 
+def sched_model(tier, st):
+    """ExecSched.tla: every tree of N work units x every placement of failing units x every interleaving of the
+    stock scheduler; the two design switches off must violate (vacuity guards)."""
+    n = 4 if tier == "quick" else 5
+    r = vlib.tlc("ExecSched_MC", "ExecSched_MC_TRUE_TRUE_%d.cfg" % n, workers=12, timeout=1500, heap="12g")
+    if not r.ok:
+        raise Inconclusive("ExecSched_MC does not hold on the model itself: %s\n%s" % (r.invariant, r.out[-2500:]))
+    st["states"] += r.distinct
+    st["trans"] += r.generated
+    st["sched_model_states"] = r.distinct
+    for cfg, want in (("ExecSched_MC_FALSE_TRUE_4.cfg", "ReturnedQuiescent"), ("ExecSched_MC_TRUE_FALSE_4.cfg", "ErrStable")):
+        g = vlib.tlc("ExecSched_MC", cfg, workers=4, timeout=600)
+        if g.ok or g.invariant != want:
+            raise Inconclusive("vacuity guard %s: expected %s to be violated, got %s" % (cfg, want, g.invariant))
+    st["sched_model_guards"] = 2
+
+
+def sched_trace(prop, verdict, trace, st, batch):
+    """ExecSched_Trace.tla on the scheduling trace of one batch; a rejected run is reported and removed, the rest re-validated."""
+    maxu = int((open(trace + ".maxu").read() or "0").strip())
+    events = vlib.read_ndjson(trace)
+    runs, cur = [], None
+    for e in events:
+        if e["ev"] in ("reset", "late"):
+            cur = [e]
+            runs.append(cur)
+        else:
+            cur.append(e)
+    st["sched_runs"] = st.get("sched_runs", 0) + sum(1 for r in runs if r[0]["ev"] == "reset")
+    st["sched_events"] = st.get("sched_events", 0) + len(events)
+    st["sched_errors_recorded"] = st.get("sched_errors_recorded", 0) + sum(1 for e in events if e["ev"] == "errfirst")
+    st["sched_errors_dropped"] = st.get("sched_errors_dropped", 0) + sum(1 for e in events if e["ev"] == "errrec") - \
+        sum(1 for e in events if e["ev"] == "errfirst")
+    for attempt in range(4):
+        flat = [e for r in runs for e in r]
+        vlib.write_ndjson(trace, flat)
+        r = vlib.tlc("ExecSched_Trace", "ExecSched_Trace.cfg", env={"TRACE": trace, "MAXU": max(maxu, 1)}, workers=1, timeout=1200, heap="6g")
+        st["states"] += r.distinct
+        st["trans"] += r.generated
+        if r.ok:
+            if r.distinct != len(flat) + 1:
+                raise Inconclusive("ExecSched_Trace consumed %d of %d events" % (r.distinct - 1, len(flat)))
+            return
+        m = re.search(r"REJECTED_AT_LINE\", (\d+)", r.out)
+        line, what = None, None
+        if r.invariant:
+            ls = re.findall(r"/\\ l = (\d+)", r.out)
+            line = int(ls[-1]) - 1 if ls else None
+            what = "invariant %s of ExecSched.tla fails on a real run" % r.invariant
+        elif m:
+            line = int(m.group(1))
+            what = "real scheduling is not a behaviour of ExecSched.tla"
+        if line is None or line < 1 or line > len(flat):
+            raise Inconclusive("ExecSched_Trace failed without a verdict:\n" + r.out[-3000:])
+        k, acc = 0, 0
+        for k, rr in enumerate(runs):
+            if acc + len(rr) >= line:
+                break
+            acc += len(rr)
+        bad = runs[k]
+        at = flat[line - 1]
+        verdict.report(None, "%s: rejected at event %d of a run (%s) under scheduler %s" % (
+            what, line - acc, json.dumps(at), bad[0].get("s", "?")),
+            {"batch": batch, "kind": "sched", "run": bad, "rejected_at": line - acc})
+        runs = runs[:k] + runs[k + 1:]
+    vlib.log("[%s] more than 4 rejected scheduling runs; stopping" % prop)
+
+
 def run_batches(prop, verdict, batches, classify=None):
     """batches: list of dicts(name, args(list), world(int)). Returns stats."""
     sc = vlib.scratch()
@@ -39,7 +108,12 @@ def run_batches(prop, verdict, batches, classify=None):
             st["states"] += gen.distinct
             st["trans"] += gen.generated
             args += ["-queries", qf]
+        strace = os.path.join(sc, "sched_%s_%d.ndjson" % (prop, i))
+        if b.get("sched"):
+            args += ["-schedtrace", strace]
         vlib.vh(args, timeout=1700)
+        if b.get("sched"):
+            sched_trace(prop, verdict, strace, st, b["name"])
         t = judge(zoo, recs, bad)
         rows = vlib.read_ndjson(recs)
         if t.distinct != len(rows) + 1:
@@ -90,6 +164,9 @@ def evidence(prop, tier, seed, st, verdict, rule, assumptions, extra=None):
         cov["schedules_enumerated"] = st["schedules"]
         cov["queries_with_all_schedules_enumerated"] = st.get("sched_exhausted", 0)
         cov["queries_in_schedule_enumeration"] = st.get("sched_queries", 0)
+    for k in ("sched_runs", "sched_events", "sched_errors_recorded", "sched_errors_dropped", "sched_model_states", "sched_model_guards"):
+        if k in st:
+            cov[k] = st[k]
     if extra:
         cov.update(extra)
     vlib.write_evidence(prop, tier, seed, "model_checking", cov, assumptions, violations=len(verdict.violations))
